@@ -12,6 +12,7 @@ import (
 	"errors"
 	"fmt"
 	"net"
+	"os"
 	"reflect"
 	"sort"
 	"strings"
@@ -1200,6 +1201,94 @@ func builtInFactoryProducts(res *vkit.Result) {
 	}
 }
 
+// ---------------------------------------------------------------- placeholders in plugin settings
+
+type PIntConf struct {
+	N int `config:"n"`
+}
+type PStrConf struct {
+	N string `config:"n"`
+}
+type PFloatConf struct {
+	N float64 `config:"n"`
+}
+type PComp interface{ P() string }
+type pcomp struct{ v string }
+
+func (p *pcomp) P() string { return p.v }
+
+type pholder struct {
+	C PComp                 `config:"c"`
+	F func() (PComp, error) `config:"f"`
+}
+
+// placeholderSettings: a setting written as ${ENV:NAME} is resolved whenever a configuration is
+// decoded, for the field it is decoded into. The same placeholder is given to plugins whose
+// field is an int, a string and a float, in every order (one variable per order), and each
+// must get the value in its own kind; a value that does not fit the field (1.9 for an int) is a
+// config error whatever was decoded before; and the products of one component-constructor
+// factory, each decoded afresh, see the environment as it is when they are made.
+func placeholderSettings(res *vkit.Result) {
+	pType := plugin.PtrType((*PComp)(nil))
+	plugin.Register(pType, "p-int", func(c PIntConf) PComp { return &pcomp{fmt.Sprintf("int:%d", c.N)} })
+	plugin.Register(pType, "p-str", func(c PStrConf) PComp { return &pcomp{"str:" + c.N} })
+	plugin.Register(pType, "p-float", func(c PFloatConf) PComp { return &pcomp{fmt.Sprintf("float:%g", c.N)} })
+	want := map[string]string{"p-int": "int:17", "p-str": "str:17", "p-float": "float:17"}
+	orders := [][]string{{"p-int", "p-str", "p-float"}, {"p-str", "p-float", "p-int"}, {"p-float", "p-int", "p-str"}, {"p-str", "p-int", "p-float"}}
+	for oi, order := range orders {
+		env := fmt.Sprintf("VERIF_C18_NUM_%d", oi)
+		os.Setenv(env, "17")
+		for _, typ := range order {
+			c := map[string]any{"order": order, "plugin": typ, "setting": "${ENV:" + env + "}"}
+			var h pholder
+			err := config.Decode(map[string]any{"c": map[string]any{"type": typ, "n": "${ENV:" + env + "}"}}, &h)
+			switch {
+			case err != nil:
+				res.Violate("C18/placeholder/rejected", fmt.Sprintf("valid setting (the variable holds 17) rejected for %s: %v", typ, err), c)
+			case h.C == nil || h.C.P() != want[typ]:
+				res.Violate("C18/placeholder/config", fmt.Sprintf("%s configured with %v, want %s", typ, h.C, want[typ]), c)
+			}
+			res.Eval(vkit.JSON(c), true)
+		}
+		os.Unsetenv(env)
+	}
+	// 1.9 fits a float and a string, not an int — whatever was decoded first
+	for oi, first := range []string{"p-float", "p-str", ""} {
+		env := fmt.Sprintf("VERIF_C18_FRAC_%d", oi)
+		os.Setenv(env, "1.9")
+		c := map[string]any{"decoded_first": first, "then": "p-int", "setting": "${ENV:" + env + "} = 1.9"}
+		if first != "" {
+			var h pholder
+			_ = config.Decode(map[string]any{"c": map[string]any{"type": first, "n": "${ENV:" + env + "}"}}, &h)
+		}
+		var h pholder
+		if err := config.Decode(map[string]any{"c": map[string]any{"type": "p-int", "n": "${ENV:" + env + "}"}}, &h); err == nil {
+			res.Violate("C18/placeholder/invalid-value-accepted", fmt.Sprintf("1.9 was accepted for an int field: component configured with %s", h.C.P()), c)
+		}
+		os.Unsetenv(env)
+		res.Eval(vkit.JSON(c), true)
+	}
+	// products of one factory, the environment changing in between
+	os.Setenv("VERIF_C18_LIVE", "1")
+	var h pholder
+	c := map[string]any{"plugin": "p-int", "form": "factory", "setting": "${ENV:VERIF_C18_LIVE}"}
+	if err := config.Decode(map[string]any{"f": map[string]any{"type": "p-int", "n": "${ENV:VERIF_C18_LIVE}"}}, &h); err != nil {
+		res.Violate("C18/placeholder/rejected", fmt.Sprintf("valid factory setting rejected: %v", err), c)
+	} else {
+		for i := 1; i <= 4; i++ {
+			os.Setenv("VERIF_C18_LIVE", fmt.Sprint(i))
+			p, err := h.F()
+			if err != nil || p.P() != fmt.Sprintf("int:%d", i) {
+				res.Violate("C18/placeholder/stale-product", fmt.Sprintf("product %d of the factory was made while the variable held %d; it is configured with %v (error %v)", i, i, p, err), c)
+				break
+			}
+			res.Count("placeholder_products", 1)
+		}
+	}
+	os.Unsetenv("VERIF_C18_LIVE")
+	res.Eval(vkit.JSON(c), true)
+}
+
 func main() {
 	vkit.Fs() // registers the config hooks (pluginconfig.AddHooks via core import)
 	res := vkit.NewResult("exhaustive cross product of constructor shapes (component|factory × no config|struct|*struct × error result × inner error result / impl-typed result × default-config func) × requested form (New, factory with error, factory without error) × outcome (ok, constructor error, inner factory error, config error) × 1–5 factory calls with mutation of each product's config; plus every config-taking shape through the `type:` config hooks; plus plugins nested three deep in plugins of the same registered name and two overlapping creations (one held in the middle of decoding by a blocking field) for value/pointer/factory shapes; plus one decoded factory called from 16 goroutines at once (every product must come from its own freshly created default); distinct = distinct (shape, form, outcome, calls); all are non-trivial")
@@ -1232,6 +1321,7 @@ func main() {
 	selfValidatingFields(res)
 	realComponentProducts(res)
 	builtInFactoryProducts(res)
+	placeholderSettings(res)
 	res.Set("exhaustive", true)
 	res.Set("shapes", len(shapes()))
 	res.Sample(Case{Shape: shapes()[5], Form: "factory-noerr", Outcome: "config-error", Calls: 2})
